@@ -227,12 +227,18 @@ def _pretty_str(data: Any) -> str:
 
 def _escape_string(string: str) -> str:
     """Escape a string and inner expressions."""
-    return (
+    string = (
         string.replace("\\", "\\\\")
         .replace("{{", "\\{")
         .replace("}}", "\\}")
         .replace("'", "\\'")
         .replace('"', '\\"')
+        # A NUL character cannot occur in the source of an expression
+        .replace("\x00", "\\000")
+    )
+    # ... and neither can a lone surrogate (e.g. from a JSON "\ud800" escape)
+    return re.sub(
+        "[\ud800-\udfff]", lambda m: "\\u%04x" % ord(m.group(0)), string
     )
 
 
